@@ -2,8 +2,10 @@ SPECIFICATION GSpec
 CONSTANTS
   Subs = {"s1","s2"}
   K = 2
+  Closers = {"c1"}
   LegacyPlainSend = FALSE
   LegacyNoWgLock = FALSE
   MutClosingFirst = FALSE
   MutSharedCtx = FALSE
+  MutEarlyReturn = FALSE
 CHECK_DEADLOCK FALSE
